@@ -18,7 +18,7 @@ import random
 import warnings
 import numpy as np
 
-from .. import ftable
+from .. import tlc, ftable
 from ..common import Report, MachineryError, seed, quiet
 from . import _symcommon as sc
 
@@ -36,7 +36,9 @@ PROPS = {
                 text="The specification decides exactly the space group of each structure, the site permutation and lattice shifts of every "
                      "operation, the image of every hopping triple (R,a,b), the orbit partition (find_irreducible_Rab must return listed "
                      "triples that represent every orbit; which representative is the implementation's choice), and which projection shells "
-                     "a site set admits. After the real symmetrize on random Hermitian models: E(gk) = E(k), Berry curvature and spin at gk "
+                     "a site set admits; the same for a subgroup H of the operations (option use_symmetries_index: proper rotations, "
+                     "identity + a two-fold axis, identity + inversion): representatives must reach every listed triple under H. After the real "
+                     "symmetrize (and symmetrize2 with a subgroup, or with projections in site-dependent local frames) on random Hermitian models: E(gk) = E(k), Berry curvature and spin at gk "
                      "equal the transformed values for every g of the resulting point group (transformations applied by the harness from the "
                      "specification's (W, time reversal), summed over degenerate groups), X(-R) = X(R)^dagger, centres map onto their images, "
                      "a second symmetrisation changes nothing (1e-8, Berry curvature 1e-5 at band gaps >= 0.02; observed 1e-14 resp. 8e-10).",
@@ -45,7 +47,9 @@ PROPS = {
                      "cubic, tetragonal, orthorhombic, hexagonal (sites with denominator 4, i.e. no 1/3 positions); starting "
                      "centres lie within 0.05 of the atomic sites; k-points with near-degenerate split bands are skipped (named in the evidence). Hybrids must be "
                      "permuted by every operation (SymOrbits!ShellAllowed; on the hexagonal cell only s, p, d, pz are used). Quick: 10 replayed "
-                     "structures (tetragonal, hexagonal, one cubic C3v, 2 magnetic), about 14 symmetrize runs, 8 recorded structures; thorough: the whole "
+                     "structures (tetragonal, hexagonal, one cubic C3v, 2 magnetic) + 2 structures x 3 subgroups, about 14 symmetrize runs + 3 "
+                     "subgroup runs + 2 runs with site-dependent frames (explicit basis_list; s, p, d only), 8 recorded structures (half with the "
+                     "subgroup of proper rotations); thorough: the whole "
                      "catalogue. FINDING (key System_R.symmetrize:mixed_centres): shells whose orbitals are mixed (not merely permuted up to sign) "
                      "by an operation of the site group of a polar site are not symmetrised exactly: centres are treated per orbital, the "
                      "Berry curvature is not covariant and a second symmetrisation moves the centres. Instances: d / eg on a site whose "
@@ -553,7 +557,7 @@ def random_structure(rng):
     return dict(lat=lat, types=types, pos=pos, mom=[(0, 0, 0)] * ns, nsites=ns, key=(lat, tuple(types), tuple(pos), ((0, 0, 0),) * ns))
 
 
-def struct_record(rep, st, rng):
+def struct_record(rep, st, rng, subgroup=False):
     """code -> spec: everything is read from the real irrep / wannierberri objects"""
     from irrep.spacegroup import SpaceGroup
     from irrep.symmetry_operation import get_atom_map
@@ -592,13 +596,23 @@ def struct_record(rep, st, rng):
             orbits.append(orb)
     rlist = [(0, 0, 0), (1, 0, 0), (0, 0, 1), (-1, 1, 0), (0, -1, -1), (2, 0, 0)]
 
+    # the operations that are applied: all of them, or (every other record) only the proper rotations without time reversal
+    sub = list(range(len(ops)))
+    if subgroup:
+        sub = [n for n, symop in enumerate(sg.symmetries) if not symop.time_reversal and np.linalg.det(np.asarray(symop.rotation, dtype=float)) > 0]
+    kw = dict(use_symmetries_index=sub) if subgroup else {}
+
     def build():
         projs = [Projection(position_num=positions[orb], orbital="s", spacegroup=sg, rotate_basis=False) for orb in orbits]
         symm = SymmetrizerSAWF.from_spacegroup_and_projections(spacegroup=sg, projections=projs)
-        return projs, symm, SymWann(symmetrizer=symm, iRvec=rlist, silent=True)
-    with quiet(), warnings.catch_warnings():
-        warnings.simplefilter("ignore")
-        good, built = sc.guarded(rep, "SymmetrizerSAWF/SymWann", dict(structure=st["key"]), build)
+        return projs, symm, SymWann(symmetrizer=symm, iRvec=rlist, silent=True, **kw)
+    try:
+        with quiet(), warnings.catch_warnings():
+            warnings.simplefilter("ignore")
+            good, built = sc.guarded(rep, "SymmetrizerSAWF/SymWann", dict(structure=st["key"], use_symmetries_index=sub if subgroup else None), build)
+    except TypeError as ex:              # the option was renamed: harness side
+        rep.part("skipped_private", SymWann_use_symmetries_index=str(ex)[:200])
+        return None
     if not good:
         return None
     projs, symm, sw = built
@@ -635,7 +649,7 @@ def struct_record(rep, st, rng):
         return None
     irr_l = sorted([list(R), a, b] for R, a, b in got)
     return dict(fn="struct", lat=st["lat"], sites=[dict(type=t, pos=list(p), mom=[0, 0, 0]) for t, p in zip(st["types"], st["pos"])],
-                ops=ops, amap=amap, tvec=tvec, rlist=[list(r) for r in rlist], blockA=sorted(orders[b1]), blockB=sorted(orders[b2]), rmap=rmap, irr=irr_l)
+                ops=ops, sub=sub, amap=amap, tvec=tvec, rlist=[list(r) for r in rlist], blockA=sorted(orders[b1]), blockB=sorted(orders[b2]), rmap=rmap, irr=irr_l)
 
 
 REC_CFG = "SPECIFICATION RecSpec\nCONSTANTS\n  DEN = %d\nINVARIANT Report\nCHECK_DEADLOCK FALSE\n" % sc.DEN
@@ -682,6 +696,11 @@ def _check(rep, tier):
     if ftable.spec_violation(rep, stc, "c20_symorb_c3v"):
         return rep.finish()
     rep.add_tlc("c20_symorb_c3v", stc)
+    # sensitivity: representatives chosen w.r.t. the full group while only a subgroup is applied must leave triples unreached
+    stf = tlc.run_tlc("MC_SymOrbits.tla", sc.symorb_cfg(["cubic"], [2], "c3v", False, subreps="full"), sc.uniq("c20_symorb_fullreps"), workers=sc.WORKERS, timeout=1500)
+    if not stf.get("violation") or stf["violation"][1] != "SubReach":
+        raise MachineryError(f"sensitivity self-test failed: full-group representatives with subgroup averaging must violate SubReach, got {stf.get('violation')} {stf.get('error')}")
+    rep.part("sensitivity", full_group_representatives_with_subgroup_averaging=stf["violation"][1])
     cstructs = [s for s in cstructs if s["mixed"]]
     if not cstructs:
         raise MachineryError("the catalogue lacks a polar site whose group mixes dz2 and dx2-y2")
@@ -693,7 +712,8 @@ def _check(rep, tier):
         raise MachineryError("empty structure catalogue (orthogonal / magnetic / hexagonal)")
 
     # ---------------- spec -> code : index maps
-    counts = dict(maps=0, rmap=0, irr=0, irr_reduced=0, irr_exactly_one=0, shift_convention={}, structures=0, magnetic=0, hexagonal=0)
+    counts = dict(maps=0, rmap=0, irr=0, irr_reduced=0, irr_exactly_one=0, shift_convention={}, structures=0, magnetic=0, hexagonal=0,
+                  irr_subgroup=0, irr_subgroup_finer=0)
     if thorough:
         sel = structs + cstructs + rng.sample(mstructs, min(len(mstructs), 40))
     else:
@@ -703,14 +723,22 @@ def _check(rep, tier):
         counts["structures"] += 1
         counts["magnetic"] += int(any(any(m) for m in st["mom"]))
         counts["hexagonal"] += int(st["lat"] == "hex")
-    if (counts["irr_reduced"] == 0 or counts["rmap"] == 0) and not rep.violations and "skipped_private" not in rep.parts:
-        raise MachineryError("exact replay never met a reducible triple")
+    # the same with a subgroup of the operations (option use_symmetries_index): structures with the largest groups
+    subsel = sorted(ostructs, key=lambda s: (-len(s["ops"]), repr(s["key"])))[:1] + sorted(hstructs, key=lambda s: (-len(s["ops"]) if s["nsites"] > 1 else 0, repr(s["key"])))[:1]
+    if thorough:
+        subsel = subsel + rng.sample(structs, min(len(structs), 10))
+    for st in subsel:
+        for kind in sorted(st["sub"]):
+            if 1 < len(st["sub"][kind]) < len(st["ops"]):
+                subgroup_replay(rep, st, kind, counts)
+    if (counts["irr_reduced"] == 0 or counts["rmap"] == 0 or counts["irr_subgroup_finer"] == 0) and not rep.violations and "skipped_private" not in rep.parts:
+        raise MachineryError(f"exact replay never met a reducible triple / a subgroup with finer orbits: {counts}")
     rep.part("exact_replay", **counts)
     rep.sample(dict(structure=sel[0]["key"], n_ops=len(sel[0]["ops"]), irreducible_triples=len(sel[0]["irr"])))
 
     # ---------------- numeric : System_R.symmetrize
     ncounts = dict(runs=0, soc=0, magnetic=0, hexagonal=0, ops_checked=0, k_skipped=0, skipped=0, no_kpoint=0, mixed_class=0, centres_checked=0,
-                   library_group_differs=0, library_check_disagrees=0, library_check_unavailable=0)
+                   library_group_differs=0, library_check_disagrees=0, library_check_unavailable=0, subgroup_runs=0, site_frame_runs=0)
     recs = []
     maxres = {}
     plan = []
@@ -730,6 +758,30 @@ def _check(rep, tier):
     for st in (mstructs if thorough else rng.sample(mstructs, min(len(mstructs), 3))):
         ok = [ps for ps in PROJ_SETS[:5] if all(sh in st["shells"] for sh in ps)]
         plan.append((st, rng.choice(ok), True))
+    # symmetrize2 on models that are not symmetric: with a subgroup (use_symmetries_index), with site-dependent local frames
+    plain = [s for s in structs if not s["mixed"]]
+    multi = sorted([s for s in plain if any(len(o) > 1 for o in site_orbits(s))], key=lambda s: repr(s["key"]))
+    big = sorted(plain, key=lambda s: (-len(s["ops"]), repr(s["key"])))
+    plan2 = []
+    if multi and big:
+        mt = [s for s in multi if s["lat"] != "hex"] or multi
+        mh = [s for s in multi if s["lat"] == "hex"] or multi
+        plan2 = [(mt[0], ["s"], False, "proper", False), (big[0], ["p"], False, "c2", False), (mh[0], ["s", "p"], True, "inv", False),
+                 (mt[-1], ["p"], False, None, True), (mh[-1], ["s", "p"], True, None, True)]
+        if thorough:
+            for n, st in enumerate(rng.sample(multi, min(len(multi), 12))):
+                plan2.append((st, [["s"], ["p"], ["d"], ["s", "p"]][n % 4], n % 3 == 0, ["proper", "c2", "inv"][n % 3], False))
+                plan2.append((st, [["p"], ["d"], ["s", "p"]][n % 3], n % 2 == 1, None, True))
+
+    def record(st, ps, soc, res, subops=(), frames="global"):
+        for k, v in res.items():
+            if k not in ("mixed_class", "nops") and not res["mixed_class"]:
+                maxres[k] = max(maxres.get(k, 0.0), v)
+        recs.append(dict(fn="symm", lat=st["lat"], sites=[dict(type=t, pos=list(p), mom=list(m)) for t, p, m in zip(st["types"], st["pos"], st["mom"])],
+                         shells=list(ps), soc=soc, nops=res["nops"], mixed_class=bool(res["mixed_class"]), frames=frames,
+                         subops=[dict(W=[list(r) for r in W], t=list(t), tr=bool(tr)) for W, t, tr in subops],
+                         b_energy=sc.bucket(res["energy"]), b_berry=sc.bucket(res["berry"]),
+                         b_spin=sc.bucket(res["spin"]), b_herm=sc.bucket(res["herm"]), b_centres=sc.bucket(res["centres"]), b_idem=sc.bucket(res["idem"])))
     for st, ps, soc in plan:
         nw = sum(NW[sh] for sh in ps) * st["nsites"] * (2 if soc else 1)
         if nw > (24 if thorough else 16):
@@ -739,14 +791,20 @@ def _check(rep, tier):
         if res is None:
             ncounts["skipped"] += 1
             continue
-        for k, v in res.items():
-            if k not in ("mixed_class", "nops") and not res["mixed_class"]:
-                maxres[k] = max(maxres.get(k, 0.0), v)
-        recs.append(dict(fn="symm", lat=st["lat"], sites=[dict(type=t, pos=list(p), mom=list(m)) for t, p, m in zip(st["types"], st["pos"], st["mom"])],
-                         shells=list(ps), soc=soc, nops=res["nops"], mixed_class=bool(res["mixed_class"]), b_energy=sc.bucket(res["energy"]), b_berry=sc.bucket(res["berry"]),
-                         b_spin=sc.bucket(res["spin"]), b_herm=sc.bucket(res["herm"]), b_centres=sc.bucket(res["centres"]), b_idem=sc.bucket(res["idem"])))
-    if not rep.violations and (ncounts["runs"] == 0 or ncounts["soc"] == 0 or ncounts["magnetic"] == 0 or ncounts["runs"] == ncounts["soc"] or ncounts["hexagonal"] == 0):
-        raise MachineryError(f"symmetrize runs do not cover soc / no soc / magnetic / hexagonal: {ncounts}")
+        record(st, ps, soc, res)
+    for st, ps, soc, kind, frames in plan2:
+        if kind is not None and not 1 < len(st["sub"][kind]) < len(st["ops"]):
+            kind = next((k for k in sorted(st["sub"]) if 1 < len(st["sub"][k]) < len(st["ops"])), None)
+            if kind is None:
+                continue
+        out = symmetrize2_run(rep, st, ps, soc, nprs, ncounts, kind=kind, site_frames=frames)
+        if out is None:
+            ncounts["skipped"] += 1
+            continue
+        record(st, ps, soc, out[0], subops=out[1], frames="site" if frames else "global")
+    if not rep.violations and (ncounts["runs"] == 0 or ncounts["soc"] == 0 or ncounts["magnetic"] == 0 or ncounts["runs"] == ncounts["soc"] or ncounts["hexagonal"] == 0
+                                   or (("skipped_private" not in rep.parts) and (ncounts["subgroup_runs"] == 0 or ncounts["site_frame_runs"] == 0))):
+        raise MachineryError(f"symmetrize runs do not cover soc / no soc / magnetic / hexagonal / subgroup / site-dependent frames: {ncounts}")
     rep.part("numeric_only", what="System_R.symmetrize on random Hermitian models: E(gk)=E(k), curvature/spin covariance for every (W, TR) of the "
                                   f"specification's point group, Hermiticity, centre images, idempotence; tolerance {TOL:g} (Berry curvature {TOL_BERRY:g} at band "
                                   f"gaps >= {MIN_GAP}); library_* counters are information (System.check_symmetry, size of system.pointgroup)",
@@ -760,7 +818,7 @@ def _check(rep, tier):
     while nstruct > 0 and tries < 2000:
         tries += 1
         st = random_structure(rng)
-        r = struct_record(rep, st, rng)
+        r = struct_record(rep, st, rng, subgroup=nstruct % 2 == 1)
         if r is None:
             if "skipped_private" in rep.parts and tries > 20 and not any(x["fn"] == "struct" for x in recs):
                 break
